@@ -562,6 +562,302 @@ pub fn foreign_image(c: &Content, rng: &mut Rng) -> Vec<u8> {
 }
 
 // ------------------------------------------------------------------------------------------------
+// small data, long text: label-table offsets and stored string-pointer values range over the same numbers
+// ------------------------------------------------------------------------------------------------
+
+fn long_string(rng: &mut Rng, alpha: &[char], lo: u64, hi: u64) -> String {
+    let len = rng.range(lo, hi);
+    let non_ascii = rng.chance(1, 4);
+    let mut s = String::new();
+    for _ in 0..len {
+        if non_ascii && rng.chance(1, 3) {
+            s.push(alpha[127 + rng.below(alpha.len() as u64 - 127) as usize]);
+        } else {
+            s.push((b'a' + rng.below(20) as u8) as char);
+        }
+    }
+    s
+}
+
+/// 0-3 cells of data, many distinct long strings, several labels, strings equal to label names.
+pub fn gen_longtext(rng: &mut Rng, allow_c: bool) -> Content {
+    let alpha = alphabet();
+    let ncells = rng.range(0, 3) as usize;
+    let tail = if rng.chance(2, 3) { 0 } else { rng.range(1, 3) } as usize;
+    let size = 4 * ncells + tail;
+    let mut c = Content { big: rng.chance(1, 2), data: rng.bytes(size), ..Default::default() };
+    let npool = rng.range(2, 8) as usize;
+    let mut pool: Vec<String> = (0..npool)
+        .map(|_| if rng.chance(1, 5) { long_string(rng, &alpha, 0, 9) } else { long_string(rng, &alpha, 10, 80) })
+        .collect();
+    pool.dedup();
+    let mut c_uses: Vec<(String, usize)> = Vec::new();
+    for cell in 0..ncells {
+        match rng.below(if allow_c { 8 } else { 7 }) {
+            0..=3 => c.strings.push((4 * cell, rng.pick(&pool).clone())),
+            4 => c.pointers.push((4 * cell, rng.below(size as u64 + 1) as usize)),
+            7 => c_uses.push((rng.pick(&pool).clone(), 4 * cell)),
+            _ => {}
+        }
+    }
+    for (s, addr) in c_uses {
+        match c.cstrings.iter_mut().find(|(t, _)| *t == s) {
+            Some((_, b)) => b.push(addr),
+            None => c.cstrings.push((s, vec![addr])),
+        }
+    }
+    let nlab = rng.range(1, 6);
+    for _ in 0..nlab {
+        let addr = rng.below(size as u64 + 1) as usize;
+        let n = rng.range(1, 3);
+        let bucket: Vec<String> = (0..n).map(|_| rng.pick(&pool).clone()).collect();
+        match c.labels.iter_mut().find(|(a, _)| *a == addr) {
+            Some((_, b)) => b.extend(bucket),
+            None => c.labels.push((addr, bucket)),
+        }
+    }
+    rng.shuffle(&mut c.strings);
+    rng.shuffle(&mut c.labels);
+    c
+}
+
+fn name_of_len(rng: &mut Rng, first: char, len: usize) -> String {
+    let mut s = String::new();
+    s.push(first);
+    for _ in 1..len {
+        s.push((b'a' + rng.below(26) as u8) as char);
+    }
+    s
+}
+
+/// Library-written collision shape: in the canonical image the stored value of a string cell
+/// (`text_start + offset of its string`) equals the label-table offset of a *different* label name.
+/// Labels are single-name buckets at ascending addresses with ascending names (same table order in
+/// both endiannesses); the string equals label name `i`, and the names `i..j` occupy exactly
+/// `text_start` bytes, so label `j` sits at offset `offset(i) + text_start`.
+fn collision_contents(rng: &mut Rng, out: &mut Vec<Content>) {
+    for ncells in 1..=3usize {
+        for tail in [0usize, 1] {
+            for nptr in 0..=1usize {
+                for with_c in [false, true] {
+                    for k in 2..=4usize {
+                        for i in 0..k {
+                            for j in (i + 1)..k {
+                                for big in [false, true] {
+                                    let size = 4 * ncells + tail;
+                                    if k > size + 1 || nptr + 1 + with_c as usize > ncells {
+                                        continue;
+                                    }
+                                    let mut c = Content { big, data: rng.bytes(size), ..Default::default() };
+                                    let mut cell = 0usize;
+                                    let str_cell = cell;
+                                    cell += 4;
+                                    for _ in 0..nptr {
+                                        c.pointers.push((cell, rng.below(size as u64 + 1) as usize));
+                                        cell += 4;
+                                    }
+                                    let mut pool_len = 0usize;
+                                    let mut np = 1 + nptr;
+                                    if with_c {
+                                        let cl = rng.range(1, 6) as usize;
+                                        let cs = name_of_len(rng, 'z', cl);
+                                        pool_len = (cs.len() + 1 + 3) / 4 * 4;
+                                        c.cstrings.push((cs, vec![cell]));
+                                        np += 1;
+                                    }
+                                    let t = size + pool_len + 4 * np + 8 * k;
+                                    // split t into (j - i) parts, each >= 2 (one character + NUL)
+                                    let parts = j - i;
+                                    let mut lens: Vec<usize> = vec![2; parts];
+                                    let mut left = t - 2 * parts;
+                                    for p in 0..parts {
+                                        let take = if p + 1 == parts { left } else { rng.below(left as u64 + 1) as usize };
+                                        lens[p] += take;
+                                        left -= take;
+                                    }
+                                    let mut names: Vec<String> = Vec::new();
+                                    for m in 0..k {
+                                        let len = if m >= i && m < j { lens[m - i] - 1 } else { rng.range(1, 12) as usize };
+                                        names.push(name_of_len(rng, (b'A' + m as u8) as char, len));
+                                    }
+                                    // ascending distinct label addresses
+                                    let mut addrs: Vec<usize> = (0..=size).collect();
+                                    rng.shuffle(&mut addrs);
+                                    addrs.truncate(k);
+                                    addrs.sort();
+                                    for m in 0..k {
+                                        c.labels.push((addrs[m], vec![names[m].clone()]));
+                                    }
+                                    c.strings.push((str_cell, names[i].clone()));
+                                    rng.shuffle(&mut c.labels);
+                                    out.push(c);
+                                }
+                            }
+                        }
+                    }
+                }
+            }
+        }
+    }
+}
+
+/// Writes an image from explicit tables and placements (spec side).
+fn emit_image(
+    c: &Content,
+    ptab: &[usize],
+    ltab: &[(usize, usize)],
+    cell_off: &[(usize, usize)],
+    text: &[u8],
+    rng: &mut Rng,
+) -> Vec<u8> {
+    let big = c.big;
+    let text_start = c.data.len() + 4 * ptab.len() + 8 * ltab.len();
+    let mut data = c.data.clone();
+    for (addr, t) in &c.pointers {
+        data[*addr..*addr + 4].copy_from_slice(&put32(big, *t));
+    }
+    for (addr, off) in cell_off {
+        data[*addr..*addr + 4].copy_from_slice(&put32(big, text_start + off));
+    }
+    let total = 0x20 + text_start + text.len();
+    let mut out: Vec<u8> = Vec::with_capacity(total);
+    out.extend_from_slice(&put32(big, total));
+    out.extend_from_slice(&put32(big, c.data.len()));
+    out.extend_from_slice(&put32(big, ptab.len()));
+    out.extend_from_slice(&put32(big, ltab.len()));
+    if rng.chance(1, 3) {
+        out.extend_from_slice(&rng.bytes(16));
+    } else {
+        out.extend_from_slice(&[0u8; 16]);
+    }
+    out.extend_from_slice(&data);
+    for x in ptab {
+        out.extend_from_slice(&put32(big, *x));
+    }
+    for (x, o) in ltab {
+        out.extend_from_slice(&put32(big, *x));
+        out.extend_from_slice(&put32(big, *o));
+    }
+    out.extend_from_slice(text);
+    out
+}
+
+/// Foreign collision shape: string `S` stored at text offset `a`, a label named `N != S` stored at
+/// offset `text_start + a` (so the cell's stored value equals the label's table offset); other
+/// strings and junk fill the gap; tables in any order.
+fn collision_images(rng: &mut Rng, out: &mut Vec<(Content, Vec<u8>)>) {
+    let alpha = alphabet();
+    for ncells in 1..=3usize {
+        for tail in [0usize, 2] {
+            for nl in 1..=4usize {
+                for a in [0usize, 1, 5, 12] {
+                    for big in [false, true] {
+                        for variant in 0..3 {
+                            let size = 4 * ncells + tail;
+                            let mut c = Content { big, data: rng.bytes(size), ..Default::default() };
+                            let s_len_max = 15usize;
+                            let s = long_string(rng, &alpha, 0, s_len_max as u64);
+                            let n = format!("N{}", long_string(rng, &alpha, 0, 20));
+                            let t_other = format!("T{}", long_string(rng, &alpha, 0, 10));
+                            // cells: the collider string first, then a mix
+                            let scell = 4 * rng.below(ncells as u64) as usize;
+                            c.strings.push((scell, s.clone()));
+                            for cell in 0..ncells {
+                                if 4 * cell == scell {
+                                    continue;
+                                }
+                                match (variant + cell) % 3 {
+                                    0 => c.strings.push((4 * cell, if rng.chance(1, 2) { s.clone() } else { t_other.clone() })),
+                                    1 => c.pointers.push((4 * cell, rng.below(size as u64 + 1) as usize)),
+                                    _ => {}
+                                }
+                            }
+                            // label entries: one named N (the collider) and nl-1 others named S / T / N / fresh
+                            let mut entries: Vec<(usize, String)> = vec![(rng.below(size as u64 + 1) as usize, n.clone())];
+                            for _ in 1..nl {
+                                let name = match rng.below(4) {
+                                    0 => s.clone(),
+                                    1 => t_other.clone(),
+                                    2 => n.clone(),
+                                    _ => format!("L{}", long_string(rng, &alpha, 0, 8)),
+                                };
+                                entries.push((rng.below(size as u64 + 1) as usize, name));
+                            }
+                            rng.shuffle(&mut entries);
+                            // content buckets keep the table order per address
+                            for (addr, name) in &entries {
+                                match c.labels.iter_mut().find(|(x, _)| x == addr) {
+                                    Some((_, b)) => b.push(name.clone()),
+                                    None => c.labels.push((*addr, vec![name.clone()])),
+                                }
+                            }
+                            let mut ptab: Vec<usize> =
+                                c.pointers.iter().map(|p| p.0).chain(c.strings.iter().map(|p| p.0)).collect();
+                            rng.shuffle(&mut ptab);
+                            let t = size + 4 * ptab.len() + 8 * entries.len();
+                            let enc_s = sjis(&s);
+                            if enc_s.len() + 1 > t {
+                                continue;
+                            }
+                            // text: [junk prefix of a bytes] S\0 [filler to t + a] N\0 [everything else]
+                            let mut text: Vec<u8> = Vec::new();
+                            if a > 0 {
+                                for _ in 0..a - 1 {
+                                    text.push(1 + rng.below(0x7e) as u8);
+                                }
+                                text.push(0);
+                            }
+                            let mut places: Vec<(String, usize)> = vec![(s.clone(), a)];
+                            text.extend_from_slice(&enc_s);
+                            text.push(0);
+                            let b = t + a;
+                            let mut rest: Vec<String> = Vec::new();
+                            for (_, name) in &entries {
+                                if *name != s && *name != n && !rest.contains(name) {
+                                    rest.push(name.clone());
+                                }
+                            }
+                            if c.strings.iter().any(|p| p.1 == t_other) && !rest.contains(&t_other) {
+                                rest.push(t_other.clone());
+                            }
+                            let mut later: Vec<String> = Vec::new();
+                            for r in rest {
+                                let e = sjis(&r);
+                                if text.len() + e.len() + 1 <= b && rng.chance(2, 3) {
+                                    places.push((r.clone(), text.len()));
+                                    text.extend_from_slice(&e);
+                                    text.push(0);
+                                } else {
+                                    later.push(r);
+                                }
+                            }
+                            while text.len() < b {
+                                text.push(if rng.chance(1, 4) { 0 } else { rng.next() as u8 });
+                            }
+                            places.push((n.clone(), b));
+                            text.extend_from_slice(&sjis(&n));
+                            text.push(0);
+                            for r in later {
+                                places.push((r.clone(), text.len()));
+                                text.extend_from_slice(&sjis(&r));
+                                text.push(0);
+                            }
+                            let off_of = |name: &String| places.iter().find(|p| &p.0 == name).unwrap().1;
+                            let ltab: Vec<(usize, usize)> = entries.iter().map(|(x, name)| (*x, off_of(name))).collect();
+                            let cell_off: Vec<(usize, usize)> = c.strings.iter().map(|(x, v)| (*x, off_of(v))).collect();
+                            let img = emit_image(&c, &ptab, &ltab, &cell_off, &text, rng);
+                            rng.shuffle(&mut c.strings);
+                            rng.shuffle(&mut c.labels);
+                            out.push((c, img));
+                        }
+                    }
+                }
+            }
+        }
+    }
+}
+
+// ------------------------------------------------------------------------------------------------
 // generation
 // ------------------------------------------------------------------------------------------------
 
@@ -773,6 +1069,30 @@ pub fn gen(seed: u64, tier: &str) -> Vec<String> {
         let m = mutate(&img, &mut rng);
         let big = if rng.chance(1, 8) { !big } else { big };
         lines.push(format!("c01.r{:06} raw {} {}", i, end_tag(big), hex(&m)));
+    }
+    // small data + long text (label offsets and stored string values in the same range), both streams
+    let n_long = if thorough { 20_000 } else { 1_200 };
+    for i in 0..n_long {
+        let c = gen_longtext(&mut rng, true);
+        lines.push(format!("c01.l{:06} ser {} {}", i, end_tag(c.big), c.fields(true)));
+    }
+    for i in 0..n_long {
+        let c = gen_longtext(&mut rng, false);
+        let img = foreign_image(&c, &mut rng);
+        lines.push(format!("c01.m{:06} img {} {} {}", i, end_tag(c.big), hex(&img), c.fields(false)));
+    }
+    // the collision shape, enumerated: stored string value == label-table offset of another name
+    for round in 0..(if thorough { 8 } else { 1 }) {
+        let mut cs: Vec<Content> = Vec::new();
+        collision_contents(&mut rng, &mut cs);
+        for (i, c) in cs.iter().enumerate() {
+            lines.push(format!("c01.c{}{:05} ser {} {}", round, i, end_tag(c.big), c.fields(true)));
+        }
+        let mut imgs: Vec<(Content, Vec<u8>)> = Vec::new();
+        collision_images(&mut rng, &mut imgs);
+        for (i, (c, img)) in imgs.iter().enumerate() {
+            lines.push(format!("c01.g{}{:05} img {} {} {}", round, i, end_tag(c.big), hex(img), c.fields(false)));
+        }
     }
     // bounded-exhaustive small scopes (cheap: run in both tiers)
     exhaustive_small(&mut lines, &mut n);
